@@ -436,6 +436,29 @@ func execCode(x *fw.Ctx, c Case) {
 			return
 		}
 		x.Cover("structure-equal")
+		if lam, ok := obj.(*slip.Lambda); ok {
+			// snapshot hands a variable's lambda value to the printer as the
+			// object itself (pp.Append builds the node from the Lambda, not
+			// from its load form): that text must read the same too
+			otext, err := ppText(lam, m)
+			if err != nil {
+				ppFailure(x, c, c.Src, m, err)
+				continue
+			}
+			oback, n, err := readOne(otext)
+			if err != nil || n != 1 {
+				x.Fail(sigH("reread-error", ""), "%s: the lambda object printed at margin %d cannot be read as one form: %v\n%s", c.Src, m, err, clip(otext, 600))
+				return
+			}
+			// (the printer leaves a lambda object's documentation string out;
+			// nothing in the property makes that observable, so it is not compared)
+			if head, sa, sb, diff := firstDiff(dropDoc(srcRead), dropDoc(oback), ""); diff {
+				x.Fail(sigH("structure", head), "%s: the lambda object printed at margin %d reads differently inside a %s form: given %s, re-read %s\n%s",
+					c.Src, m, head, clip(sa, 200), clip(sb, 200), clip(otext, 600))
+				return
+			}
+			x.Cover("lambda-object-structure-equal")
+		}
 		// behaviour: evaluate the text in a fresh scope and probe again
 		rs := slip.NewScope()
 		res, err := evalForms(rs, text)
@@ -515,6 +538,19 @@ var layoutHeads = map[string]bool{
 	"with-output-to-string": true, "with-standard-io-syntax": true, "backquote": true, "case": true, "typecase": true,
 	"if": true, "when": true, "unless": true, "tagbody": true, "multiple-value-bind": true, "prog1": true, "setq": true,
 	"return-from": true, "funcall": true, "apply": true, "mapcar": true, "and": true, "or": true, "incf": true, "push": true,
+}
+
+// dropDoc removes the documentation string of a lambda expression.
+func dropDoc(obj slip.Object) slip.Object {
+	l, ok := obj.(slip.List)
+	if !ok || len(l) < 4 {
+		return obj
+	}
+	if _, ok := l[2].(slip.String); ok {
+		l2 := append(slip.List{}, l[:2]...)
+		return append(l2, l[3:]...)
+	}
+	return obj
 }
 
 func countHeads(x *fw.Ctx, obj slip.Object) {
